@@ -105,35 +105,69 @@ def _why_kind(why):
 
 # --------------------------------------------------------------------------- (A) the models
 
-def model_checks(chk, tier):
-    cfgs = [("StoreAbsMC", "StoreAbsMC", True, 600)]
+SHAPE_LABELS = ["fixed:new-section", "fixed:free-list", "mixed:tree-split", "mixed:tree-exact",
+                "mixed:new-frontier-split", "mixed:new-frontier-consume", "mixed:frontier-split",
+                "mixed:frontier-consume", "mixed:frontier-discard+new-frontier-split",
+                "mixed:frontier-discard+new-frontier-consume", "resize:same", "resize:move", "free:fixed",
+                "free:mixed-merge-none", "free:mixed-merge-next", "free:mixed-merge-prev", "free:mixed-merge-both",
+                "collect:all-reclaimed", "collect:fixed-section-returned", "collect:mixed-section-returned"]
+GRAPH_LABELS = ["collect:nothing-reclaimed", "collect:some-reclaimed-some-kept", "recode", "write", "setroot"]
+
+
+def _probe(work, label, base):
+    """Is a step with this sub-case label reachable in StoreImpl?  (TLC must violate ProbeInv.)"""
+    cfg = open(os.path.join(vlib.SPEC, base + ".cfg")).read()
+    cfg = cfg.replace('Probe = "none"', 'Probe = "%s"' % label)
+    cfg = cfg.replace("INVARIANTS AuditInv AbsInv ClientOk", "INVARIANT ProbeInv")
+    cfg = cfg.replace("PROPERTY Refines\n", "").replace("VIEW View\n", "")
+    path = os.path.join(work, "probe-%s.cfg" % "".join(ch if ch.isalnum() else "_" for ch in label))
+    with open(path, "w") as fh:
+        fh.write(cfg)
+    r = vlib.tlc("StoreImpl", path, workers=2, timeout=900, xmx="4g")
+    return label, r
+
+
+def model_checks(chk, tier, work):
+    """Returns a list of thunks' results; run inside a thread pool."""
+    runs = [("StoreAbsMC", "StoreAbsMC", True, 900, 4, "abs")]
     if tier == "thorough":
-        cfgs.append(("StoreAbsMC", "StoreAbsMCDeep", False, 1500))
-    for mod, cfg, cov, to in cfgs:
-        r = vlib.tlc(mod, cfg, workers=PAR, coverage=cov, timeout=to)
+        runs.append(("StoreAbsMC", "StoreAbsMCDeep", False, 1700, 6, "abs"))
+    runs.append(("StoreImpl", "StoreImplQ", False, 900, 4, "impl"))
+    runs.append(("StoreImpl", "StoreImplShape", False, 900, 4, "impl"))
+    if tier == "thorough":
+        runs.append(("StoreImpl", "StoreImpl", False, 1700, 6, "impl"))
+        runs.append(("StoreImpl", "StoreImplShapeDeep", False, 1700, 6, "impl"))
+
+    def one(run):
+        mod, cfg, cov, to, w, kind = run
+        return run, vlib.tlc(mod, cfg, workers=w, coverage=cov, timeout=to, xmx="6g")
+
+    with ThreadPoolExecutor(max_workers=4) as ex:
+        fut_runs = [ex.submit(one, r) for r in runs]
+        fut_probes = [ex.submit(_probe, work, lab, "StoreImplShape") for lab in SHAPE_LABELS] + \
+                     [ex.submit(_probe, work, lab, "StoreImplQ") for lab in GRAPH_LABELS]
+        results = [f.result() for f in fut_runs]
+        probes = [f.result() for f in fut_probes]
+    for (mod, cfg, cov, to, w, kind), r in results:
         chk.add_tlc(cfg, r)
         if r.violated:
-            chk.violation("the property-level model StoreAbs violates %s" % r.violated, r.trace_text,
-                          key={"model": cfg, "inv": r.violated})
+            which = "property-level model StoreAbs" if kind == "abs" else "implementation-shaped model StoreImpl"
+            chk.violation("the %s violates %s" % (which, r.violated), r.trace_text, key={"model": cfg, "inv": r.violated})
         if cov:
             missing = [a for a in MC_ACTIONS if r.coverage.get(a, (0, 0))[1] == 0]
             if missing:
-                raise vlib.MachineryError("StoreAbsMC: actions never taken (vacuous model): %s" % missing)
-    impl_cfgs = []
-    if os.path.exists(os.path.join(vlib.SPEC, "StoreImpl.tla")):
-        impl_cfgs.append(("StoreImpl", "StoreImpl", True, 900))
-        if tier == "thorough" and os.path.exists(os.path.join(vlib.SPEC, "StoreImplDeep.cfg")):
-            impl_cfgs.append(("StoreImpl", "StoreImplDeep", False, 1700))
-    for mod, cfg, cov, to in impl_cfgs:
-        r = vlib.tlc(mod, cfg, workers=PAR, coverage=cov, timeout=to)
-        chk.add_tlc(cfg, r)
-        if r.violated:
-            chk.violation("the implementation-shaped model StoreImpl violates %s" % r.violated, r.trace_text,
-                          key={"model": cfg, "inv": r.violated})
-        if cov:
-            never = sorted(a for a, v in r.coverage.items() if v[1] == 0 and a != "Init")
-            if never:
-                chk.extra.setdefault("storeimpl_actions_never_taken", never)
+                raise vlib.MachineryError("%s: actions never taken (vacuous model): %s" % (cfg, missing))
+    unreached = []
+    for label, r in probes:
+        if r.error:
+            raise vlib.MachineryError("StoreImpl probe %s: %s" % (label, r.error))
+        chk.states += r.distinct
+        chk.transitions += r.states
+        if r.violated != "ProbeInv":
+            unreached.append(label)
+    if unreached:
+        raise vlib.MachineryError("StoreImpl: sub-cases never taken within the bounds (vacuous model): %s" % unreached)
+    chk.extra["storeimpl_subcases_reached"] = SHAPE_LABELS + GRAPH_LABELS
 
 
 # --------------------------------------------------------------------------- (B) replay
@@ -366,14 +400,64 @@ def run(chk, tier):
         "x86-64 Linux, 8-byte alignment = alignof(MostAlignedType); addresses relative to the initial program break",
         "roots are words in static data and in a live stack frame; stale words elsewhere may keep garbage alive (allowed)",
     ]
-    model_checks(chk, tier)
-    replay_histories(chk, drv, work, tier)
-    random_histories(chk, drv, work, tier)
+    # the model runs and the runs against the real allocator are independent: do them side by side
+    # (C10_STAGES=replay,random restricts a run to some stages; used only by the self-tests with mutated
+    # sources, where the model runs -- which do not depend on the C code -- would be repeated for nothing)
+    stages = os.environ.get("C10_STAGES", "models,replay,random").split(",")
+    with ThreadPoolExecutor(max_workers=2) as ex:
+        fm = ex.submit(model_checks, chk, tier, work) if "models" in stages else None
+        if "replay" in stages:
+            replay_histories(chk, drv, work, tier)
+        if "random" in stages:
+            random_histories(chk, drv, work, tier)
+        if fm:
+            fm.result()
+    if set(stages) != {"models", "replay", "random"}:
+        chk.assumptions.append("PARTIAL RUN: C10_STAGES=%s" % ",".join(stages))
 
 
 def replay(d):  # bin/verif replay C10 <file>
     print(json.dumps(d.get("detail", {}), indent=1)[:6000])
     return 0
+
+
+def selftest_corrupt():
+    """python3 -c "import sys; sys.path[:0]=['/verif/lib','/verif']; import checks.c10 as c; c.selftest_corrupt()"
+    Records one random history from the unchanged tree, then corrupts one field of one event at a time and
+    shows that TLC refuses the trace at that event (and accepts the untouched trace)."""
+    import copy
+    b = vlib.vbuild()
+    work = vlib.scratch("c10self")
+    drv = os.path.join(work, "store_drv")
+    shutil.copy2(vlib.harness_build("store_drv", [HARNESS], b), drv)
+    t = os.path.join(work, "t.ndjson")
+    _run_drv(drv, ["random", 11, 3000, t, 0, 48, 0], 120)
+    ev = [json.loads(x) for x in open(t)]
+    first = lambda kind, pred=lambda e: True: next(i for i, e in enumerate(ev) if e["ev"] == kind and i > 500 and pred(e))
+    cases = [("untouched", None, None)]
+    i = first("Alloc"); cases.append(("Alloc.size = n-1", i, lambda e: e.update(size=e["n"] - 1)))
+    cases.append(("Alloc.off += 4", i, lambda e: e.update(off=e["off"] + 4)))
+    j = max(k for k in range(i) if ev[k]["ev"] == "Alloc")
+    cases.append(("Alloc at the address of the previous Alloc", i, lambda e: e.update(pg=ev[j]["pg"], off=ev[j]["off"])))
+    i = first("Resize"); cases.append(("Resize.prefix_ok = false", i, lambda e: e.update(prefix_ok=False)))
+    i = first("Collect", lambda e: len(e["surv"]) >= 1)
+    cases.append(("Collect: first survivor dropped", i, lambda e: e.update(surv=e["surv"][1:])))
+    i = first("Free"); cases.append(("event.bad = [[1,2]]", i, lambda e: e.update(bad=[[1, 2]])))
+    cases.append(("event.aud = false", i, lambda e: e.update(aud=False)))
+    ok = True
+    for name, idx, f in cases:
+        e2 = copy.deepcopy(ev)
+        if f:
+            f(e2[idx])
+        p2 = os.path.join(work, "c.ndjson")
+        vlib.write_ndjson(p2, e2)
+        v = _validate(p2)
+        want = ("accepted", None) if f is None else ("rejected", idx + 1)
+        good = v[0] == want[0] and (want[1] is None or v[1] == want[1])
+        ok = ok and good
+        print("%-48s -> %s %s %s  [%s]" % (name, v[0], v[1], v[2], "ok" if good else "UNEXPECTED"))
+    vlib.cleanup_scratch()
+    return ok
 
 
 SELFTEST_NOTES = """
